@@ -275,6 +275,10 @@ func firstLines(s string, n int) string {
 	return strings.Join(ls, "\n")
 }
 
+// shrinkingHang is set while candidates of a non-terminating scenario are
+// tried: they get the short CPU limit.
+var shrinkingHang bool
+
 // execOnce executes one scenario in a fresh process and returns the class of
 // the violation it shows ("" = none).
 func execOnce(env Env, p Property, phase Phase, raw []byte, verbose bool) (class, sig, detail, output string, err error) {
@@ -317,6 +321,9 @@ func execSeq(env Env, p Property, phase Phase, prelude []json.RawMessage, raw []
 	}
 	if phase.Race {
 		cmd.Env = append(cmd.Env, "GORACE=halt_on_error=1 exitcode=66 history_size=5 atexit_sleep_ms=0")
+	}
+	if shrinkingHang && os.Getenv("VERIF_HANG_CPU_S") == "" {
+		cmd.Env = append(cmd.Env, fmt.Sprintf("VERIF_HANG_CPU_S=%d", int(ShrinkHangCPU.Seconds())))
 	}
 	var buf bytes.Buffer
 	cmd.Stdout, cmd.Stderr = &buf, &buf
@@ -517,7 +524,9 @@ func report(env Env, p Property, ph Phase, seed uint64, fv *FoundViolation, know
 			return err == nil && !res.Invalid && res.Violation != nil && res.Violation.Class == fv.V.Class
 		}
 	}
+	shrinkingHang = fv.V.Class == "non-termination"
 	small, tests := Shrink(fv.Scenario, tester, maxTests, maxDur)
+	shrinkingHang = false
 	fmt.Printf("  minimised %d -> %d bytes in %d executions\n", len(fv.Scenario), len(small), tests)
 	class2, sig2, detail2, _, err := execOnce(env, p, ph, small, false)
 	for i := 0; i < 80 && fv.V.Class == "data-race" && (err != nil || class2 != fv.V.Class); i++ {
